@@ -87,7 +87,7 @@ type c10Rule struct {
 }
 
 func TestVfC10Rules(t *testing.T) {
-	st := vfkit.Stats("TestVfC10Rules", "generated configurations (1-3 upstreams of which some answer SERVFAIL / REFUSED, in one configuration of three all written with one addr and told apart by dial_addr, 0-3 domain sets with shared files incl. empty sets, 0-6 rules with optional domain / reverse / reject 0-15 / forward / no action) each run by the real binary (cache off / memory / a second-level store shared by all configurations of the run), x 25 queries (names in/out of the sets, mixed case, several types and classes); oracle: reference first-match model -> client rcode (a failing upstream's own rcode) and answering upstream tag, the selected upstream and no other receives exactly one lower-cased RD=1 query, reject/REFUSED decisions cause no upstream traffic; non-trivial = deciding rule is not the first, or reverse decides, or a reject precedes a forward that would also match")
+	st := vfkit.Stats("TestVfC10Rules", "generated configurations (1-3 upstreams of which some answer SERVFAIL / REFUSED, in one configuration of three all written with one addr and told apart by dial_addr, 0-3 domain sets with shared files incl. empty sets and entries that are relatives of the entry before them (below, above, beside), 0-6 rules with optional domain / reverse / reject 0-15 / forward / no action) each run by the real binary (cache off / memory / a second-level store shared by all configurations of the run), x 25 queries (names in/out of the sets, mixed case, several types and classes); oracle: reference first-match model -> client rcode (a failing upstream's own rcode) and answering upstream tag, the selected upstream and no other receives exactly one lower-cased RD=1 query, reject/REFUSED decisions cause no upstream traffic; non-trivial = deciding rule is not the first, or reverse decides, or a reject precedes a forward that would also match")
 	defer vfkit.Flush()
 	// One second-level store (kit/fakeredis.go) for the whole run: configurations that use it inherit what earlier
 	// configurations - with other rule lists - left there. Names come from a small label set, so they meet again.
@@ -134,12 +134,27 @@ func TestVfC10Rules(t *testing.T) {
 			if rapid.IntRange(0, 3).Draw(t, "leadingNoise") == 0 {
 				sb.WriteString("# a comment" + eol + eol + "   \t" + eol)
 			}
-			for i := rapid.IntRange(0, 4).Draw(t, "nEntries"); i > 0; i-- {
+			for i := rapid.IntRange(0, 6).Draw(t, "nEntries"); i > 0; i-- {
 				e := c10Entry{kind: rapid.SampledFrom([]string{"full", "domain", "bare", "bare", "regexp"}).Draw(t, "kind")}
 				if e.kind == "regexp" {
 					e.re = rapid.SampledFrom([]string{`^a\.`, `\.net$`, `^[a-c]\.com$`, `example`, `^x-1$`}).Draw(t, "re")
 				} else {
 					e.name = c10GenName(t, 1)
+					// every other name is a relative of the entry written before it (a name below it, the name above it, a
+					// sibling): lists name a domain and hosts of it, in either order
+					if prev := fileEntries[f]; len(prev) > 0 && len(prev[len(prev)-1].name) > 0 && rapid.Bool().Draw(t, "relative") {
+						pn := prev[len(prev)-1].name
+						switch rapid.IntRange(0, 3).Draw(t, "relation") {
+						case 0, 1:
+							e.name = append([]string{rapid.SampledFrom(c10Labels).Draw(t, "below")}, pn...)
+						case 2:
+							if len(pn) > 1 {
+								e.name = append([]string(nil), pn[1:]...)
+							}
+						default:
+							e.name = append([]string{rapid.SampledFrom(c10Labels).Draw(t, "sibling")}, pn[1:]...)
+						}
+					}
 				}
 				fileEntries[f] = append(fileEntries[f], e)
 				sb.WriteString(e.line(t) + eol)
@@ -174,12 +189,33 @@ func TestVfC10Rules(t *testing.T) {
 			}
 			cfg.DomainSets = append(cfg.DomainSets, ds)
 		}
+		// names that an entry covers and a later entry of the same set lies below (the domain, then a host of it): the
+		// domain itself and its other hosts are still in the set
+		var covered [][]string
+		var coveredSets []int
+		for si, es := range setEntries {
+			for i, e := range es {
+				if (e.kind != "domain" && e.kind != "bare") || len(e.name) == 0 {
+					continue
+				}
+				for _, l := range es[i+1:] {
+					if l.kind != "regexp" && len(l.name) > len(e.name) && strings.Join(l.name[len(l.name)-len(e.name):], ".") == strings.Join(e.name, ".") {
+						covered = append(covered, e.name)
+						coveredSets = append(coveredSets, si)
+						break
+					}
+				}
+			}
+		}
 		nRules := rapid.IntRange(0, 6).Draw(t, "nRules")
 		rules := make([]c10Rule, nRules)
 		for i := range rules {
 			r := c10Rule{set: -1, forward: -1}
 			if nSets > 0 && rapid.IntRange(0, 3).Draw(t, "hasDomain") > 0 {
 				r.set = rapid.IntRange(0, nSets-1).Draw(t, "set")
+				if len(coveredSets) > 0 && rapid.Bool().Draw(t, "aSetWithRelatives") {
+					r.set = coveredSets[rapid.IntRange(0, len(coveredSets)-1).Draw(t, "which")]
+				}
 				r.reverse = rapid.IntRange(0, 2).Draw(t, "reverse") == 0
 			}
 			switch rapid.IntRange(0, 5).Draw(t, "action") {
@@ -240,7 +276,13 @@ func TestVfC10Rules(t *testing.T) {
 			for _, es := range setEntries {
 				all = append(all, es...)
 			}
-			if len(all) > 0 && rapid.IntRange(0, 2).Draw(t, "fromEntry") > 0 {
+			if len(covered) > 0 && rapid.IntRange(0, 2).Draw(t, "fromCovered") == 0 {
+				name = append([]string(nil), covered[rapid.IntRange(0, len(covered)-1).Draw(t, "covered")]...)
+				if rapid.Bool().Draw(t, "otherHost") {
+					name = append([]string{rapid.SampledFrom(c10Labels).Draw(t, "host")}, name...)
+				}
+				st.Class("queries-at-a-domain-listed-before-one-of-its-hosts", 1)
+			} else if len(all) > 0 && rapid.IntRange(0, 2).Draw(t, "fromEntry") > 0 {
 				e := all[rapid.IntRange(0, len(all)-1).Draw(t, "entry")]
 				name = append([]string(nil), e.name...)
 				switch rapid.IntRange(0, 3).Draw(t, "derive") {
